@@ -109,7 +109,9 @@ class PostgreSQLQueryBuilder(QueryBuilder):
                 )
             )
             join_and_base_tables = set(self._from) | join_tables | {j.item for j in self._joins}
-            table_not_base_or_join = bool(term.tables_ - join_and_base_tables)
+            table_not_base_or_join = (
+                field.table is not None and field.table not in join_and_base_tables
+            )
             if not table_is_insert_or_update_table and table_not_base_or_join:
                 raise QueryException("You can't return from other tables")
 
